@@ -379,3 +379,46 @@ def unused_run_dir(k: int) -> str:
             problems += f"{base} does not start with {stamp}; "
         shutil.rmtree(root, ignore_errors=True)
     return problems
+
+
+# ------------------------------------------------------------------ O4 :last / :first among run directories with same-second suffixes
+SEC = ["10", "11", "12", "13"]
+PERMS = [(0, 1, 2), (0, 2, 1), (1, 0, 2), (1, 2, 0), (2, 0, 1), (2, 1, 0)]
+
+
+@ob(
+    "C10",
+    "O4-last-first-resolution",
+    pre=["0 <= s0 < 4 and 0 <= s1 < 4 and 0 <= s2 < 4", "0 <= perm < 6"],
+    post="_ == ''",
+    bound="the real ResultsManager._find_in_dir_names over three run-directory names of one day: seconds s0, s1, s2 symbolic (4 values, "
+    "equal seconds allowed), each optionally carrying the same-second suffix '.0' (symbolic; the first name never), listed in any of "
+    "the 6 orders (symbolic): ':last' is a run of the greatest second and ':first' a run of the smallest (which of two runs of one "
+    "second is not claimed); the prefix selects only names that start with it",
+    outside="more than three run directories; suffixes above .0; microsecond-like suffixes",
+    encodes=["csvpath/managers/results/results_manager.py:ResultsManager._find_in_dir_names"],
+    tiers={"quick": {"timeout": 900}},
+)
+def last_first_resolution(s0: int, s1: int, s2: int, f1: bool, f2: bool, perm: int, last: bool) -> str:
+    from csvpath.managers.results.results_manager import ResultsManager
+
+    secs = [s0, s1, s2]
+    names = ["2031-05-06_13-00-" + SEC[s0], "2031-05-06_13-00-" + SEC[s1] + (".0" if f1 else ""), "2031-05-06_13-00-" + SEC[s2] + (".0" if f2 else "")]
+    # a collision suffix only exists next to the unsuffixed directory of the same second
+    if f1 and s1 != s0:
+        return ""
+    if f2 and not (s2 == s0 or (s2 == s1 and not f1)):
+        return ""
+    if f1 and f2 and s1 == s2:
+        return ""
+    order = PERMS[perm]
+    listed = [names[order[0]], names[order[1]], names[order[2]], "2031-05-07_09-00-00"]
+    with NoTracing():
+        rm = ResultsManager.__new__(ResultsManager)
+        rm._csvpaths = None
+    got = rm._find_in_dir_names("2031-05-06", listed, last)
+    want_sec = max(secs) if last else min(secs)
+    ok = [n for n, s in zip(names, secs) if s == want_sec]
+    if got not in ok:
+        return f"{'last' if last else 'first'} of {listed} gave {got}, expected one of {ok}"
+    return ""
